@@ -36,10 +36,10 @@ def mutants(which):
         for d in sorted(glob.glob('/tmp/seed3/*/out/[mr]*/patch.diff')):
             parts = d.split('/')
             ms.append(('seed3/%s-%s' % (parts[3], parts[5]), d, False))
-    if 'seed4x' in which:
-        for d in sorted(glob.glob('/tmp/seed4/*/out/[mr]*/patch.diff')):
+    if 'seed5' in which:
+        for d in sorted(glob.glob('/tmp/seed5/*/out/[mr]*/patch.diff')):
             parts = d.split('/')
-            ms.append(('seed4/%s-%s' % (parts[3], parts[5]), d, False))
+            ms.append(('seed5/%s-%s' % (parts[3], parts[5]), d, False))
     if 'unfix' in which:
         for h, s in fix_commits():
             ms.append(('unfix/%s %s' % (h, s[:60]), h, True))
@@ -108,7 +108,7 @@ def main():
             flags.append(tag)
         hit = bool(res) and (own is None or own in res) and not (own and any(
             x.startswith(('ANALYSIS-ERROR', 'CRASH')) for x in res.get(own, [])))
-        if re.search(r'-r\d$', name) or 'preserving' in name:
+        if re.search(r'-r\d+$', name) or 'preserving' in name:
             hit = not res        # a behaviour-preserving change must stay silent
         if hit:
             caught += 1
